@@ -28,6 +28,11 @@ def main(argv=None):
         import tempfile
 
         d = tempfile.mkdtemp(prefix="vcheck-scratch-")
+        if not os.environ.get("VERIF_KEEP_SCRATCH"):
+            import atexit
+            import shutil
+
+            atexit.register(shutil.rmtree, d, True)  # scratch analyses leave nothing under /tmp
         report.EVIDENCE_DIR = d
         report.REPLAY_DIR = os.path.join(d, "replay")
     t0 = time.time()
